@@ -408,8 +408,26 @@ func c17Unhex(s string) []byte {
 	return b
 }
 
+// c17Panic is the error class of a probe that panicked on the calling goroutine (recovered here, so that the
+// harness survives and the panic is attributed to the scenario that caused it)
+type c17Panic struct{ msg string }
+
+func (p c17Panic) Error() string { return p.msg }
+
+// c17SafeProbe calls probe under recover. A panic in a goroutine that the code under test spawns cannot be
+// recovered here: it kills the process, and the check then re-runs the requests in supervised child processes.
+func c17SafeProbe(host, port string, timeout time.Duration) (info *discoveryInfo, err error) {
+	defer func() {
+		if r := recover(); r != nil {
+			info, err = nil, c17Panic{strings.Join(strings.Fields(fmt.Sprint(r)), " ")}
+		}
+	}()
+	return probe(host, port, timeout)
+}
+
 // "name <vendor> <model> <idtype> <ridhex|-> <fwhex|-> <caps:0|1> <ident:0|1> <mode>"
 // answer: "ok name=<hex> v=<n> m=<n> fw=<hex> dd=<hex> pen=<s> model=<s> ddfw=<hex> host=<0|1>" | "err" | "blocked"
+//         | "panic <message>"
 func c17Name(f []string, h *c17Host) string {
 	v, _ := strconv.ParseUint(f[1], 10, 32)
 	m, _ := strconv.ParseUint(f[2], 10, 32)
@@ -431,11 +449,14 @@ func c17Name(f []string, h *c17Host) string {
 	ch := make(chan res, 1)
 	port := h.port()
 	go func() {
-		info, err := probe("127.0.0.1", port, 2*time.Second)
+		info, err := c17SafeProbe("127.0.0.1", port, 2*time.Second)
 		ch <- res{info, err}
 	}()
 	select {
 	case r := <-ch:
+		if p, ok := r.err.(c17Panic); ok {
+			return "panic " + p.msg
+		}
 		if r.err != nil || r.info == nil {
 			return "err"
 		}
@@ -487,7 +508,7 @@ func c17Probe(f []string) string {
 	ch := make(chan res, 1)
 	t0 := time.Now()
 	go func() {
-		info, err := probe("127.0.0.1", port, time.Duration(to)*time.Millisecond)
+		info, err := c17SafeProbe("127.0.0.1", port, time.Duration(to)*time.Millisecond)
 		ch <- res{info, err}
 	}()
 	acc := func() int {
@@ -501,6 +522,9 @@ func c17Probe(f []string) string {
 		el := time.Since(t0).Milliseconds()
 		if h != nil {
 			h.Close()
+		}
+		if p, ok := r.err.(c17Panic); ok {
+			return "panic " + p.msg
 		}
 		cls := "err"
 		if r.err == nil && r.info != nil {
